@@ -14,6 +14,7 @@ import os
 import gridlib as gl
 import rltie
 import c01global
+import c02bridge
 import vlib
 
 LEVEL = "proof"
@@ -168,6 +169,8 @@ def run(res, tier, seed, replay_script=None):
     proof_broken = (not props["ok"]) or bool(res.coverage["forbidden_tokens"]) or (not props_up["ok"])
     # Global grids with nested rules: the combination surrogate reproduces the values at every grid point (unbounded; Properties_C01_global.v)
     c01global.run(res)
+    # the weights form the code assembles (sum of w(t) x tensor rule) equals the difference form of the theorems (Properties_C02_bridge.v)
+    c02bridge.run(res)
     runner = vlib.ocaml_runner("corefast") if ok_ext else None
     drv = vlib.build_driver("tsgdrv")
     wd = os.path.join(vlib.BUILD, "work", PID)
